@@ -118,21 +118,32 @@ func c09ResultOwned(c *Ctx, p *core.Prog) {
 	// scratch-not-linked: storage that belongs to the reusable object (the value of one of its slice fields, resliced or
 	// appended to) must not be linked into another object, e.g. an AST node: the next use of the scratch overwrites
 	// what that node holds.
-	r.Rule("scratch-not-linked", "in the methods of *Parser / *Tokenizer a slice that shares storage with a receiver field (the field's value, a reslice of it, or an append chain starting from it) is not stored into a field of any other object")
+	r.Rule("scratch-not-linked", "a slice that shares storage with a field of a reusable *Parser / *Tokenizer (the field's value, a reslice of it, or an append chain starting from it) is not stored into a field of any other object, neither by their own methods nor by code that holds one")
 	nm := 0
-	for _, rel := range []string{"pkg/sql/parser", "pkg/sql/tokenizer"} {
-		for _, fn := range p.SrcFuncs(rel) {
-			if fn.Parent() != nil || fn.Signature.Recv() == nil || !isPooled(fn.Signature.Recv().Type()) || len(fn.Params) == 0 {
+	{
+		for _, fn := range p.ModuleFuncs() {
+			if fn.Blocks == nil {
 				continue
 			}
-			recv := ssa.Value(fn.Params[0])
+			// inside the methods of the reusable object: its receiver; elsewhere (a formatter that holds a pooled
+			// tokenizer, say): any value of the reusable type
+			var recv ssa.Value
+			if fn.Parent() == nil && fn.Signature.Recv() != nil && isPooled(fn.Signature.Recv().Type()) && len(fn.Params) > 0 {
+				recv = fn.Params[0]
+			}
 			shared := map[ssa.Value]string{}
 			for _, b := range fn.Blocks {
 				for _, in := range b.Instrs {
 					if v, ok := in.(ssa.Value); ok {
 						if _, isSl := v.Type().Underlying().(*types.Slice); isSl {
-							if f, ok := recvField(v, recv); ok {
-								shared[v] = f
+							if recv != nil {
+								if f, ok := recvField(v, recv); ok {
+									shared[v] = f
+								}
+							} else if u, ok := v.(*ssa.UnOp); ok && u.Op == token.MUL {
+								if fa, ok := u.X.(*ssa.FieldAddr); ok && isPooled(core.Deref(fa.X.Type())) {
+									shared[v] = core.FieldName(fa.X.Type(), fa.Field)
+								}
 							}
 						}
 					}
@@ -180,7 +191,7 @@ func c09ResultOwned(c *Ctx, p *core.Prog) {
 						continue
 					}
 					fa, ok := st.Addr.(*ssa.FieldAddr)
-					if !ok || recvLike(recv, fa.X) {
+					if !ok || (recv != nil && recvLike(recv, fa.X)) || isPooled(core.Deref(fa.X.Type())) {
 						continue
 					}
 					if _, isSl := st.Val.Type().Underlying().(*types.Slice); !isSl {
